@@ -1,0 +1,125 @@
+//go:build verif
+
+package chain
+
+import (
+	"encoding/hex"
+	"encoding/json"
+	"fmt"
+	"os"
+	"path/filepath"
+	"sync"
+
+	"github.com/zenon-network/go-zenon/chain/nom"
+	"github.com/zenon-network/go-zenon/common/db"
+)
+
+// Verification hooks (build tag `verif`): one event per linearization point of the ledger,
+// emitted after the state change while the lock that protects it is still held.
+//
+//	block     an account block was accepted into the unconfirmed pool (accountPool.changes held)
+//	momentum  a momentum was committed (momentumPool.changes held)
+//	pop       a momentum was rolled back (momentumPool.changes held)
+//
+// Events go to VerifTracer when a harness installed one, else to $VERIF_TRACE_DIR/trace-<pid>.ndjson
+// (so that the repository's own tests can be traced unedited), else nowhere.
+
+type VerifEvent map[string]interface{}
+
+var (
+	VerifTracer func(VerifEvent)
+
+	verifMu     sync.Mutex
+	verifSeq    uint64
+	verifChains = map[*momentumPool]int{}
+	verifPools  = map[*accountPool]int{}
+	verifFile   *os.File
+)
+
+func verifEmit(ev VerifEvent) {
+	verifMu.Lock()
+	defer verifMu.Unlock()
+	verifSeq++
+	ev["seq"] = verifSeq
+	if VerifTracer != nil {
+		VerifTracer(ev)
+		return
+	}
+	dir := os.Getenv("VERIF_TRACE_DIR")
+	if dir == "" {
+		return
+	}
+	if verifFile == nil {
+		f, err := os.OpenFile(filepath.Join(dir, fmt.Sprintf("trace-%d.ndjson", os.Getpid())), os.O_CREATE|os.O_WRONLY|os.O_APPEND, 0o644)
+		if err != nil {
+			return
+		}
+		verifFile = f
+	}
+	data, err := json.Marshal(ev)
+	if err != nil {
+		data, _ = json.Marshal(VerifEvent{"ev": "error", "seq": verifSeq, "what": err.Error()})
+	}
+	verifFile.Write(append(data, '\n'))
+}
+
+func verifOnNewChain(c *chain) {
+	verifMu.Lock()
+	id := len(verifChains) + 1
+	verifChains[c.momentumPool] = id
+	verifPools[c.accountPool] = id
+	verifMu.Unlock()
+}
+
+func verifPatchHex(p db.Patch) string {
+	if p == nil {
+		return ""
+	}
+	return hex.EncodeToString(p.Dump())
+}
+
+// verifBlockAdded is called before the pool decides; the returned function runs (deferred, still under
+// accountPool.changes) after the decision and emits the event iff the block is now part of the account's chain.
+func verifBlockAdded(ap *accountPool, transaction *nom.AccountBlockTransaction, force bool) func() {
+	block := transaction.Block
+	patch := verifPatchHex(transaction.Changes)
+	wasThere := false
+	if b, err := ap.getFrontierAccountStore(block.Address).ByHeight(block.Height); err == nil && b != nil && b.Hash == block.Hash {
+		wasThere = true
+	}
+	return func() {
+		b, err := ap.getFrontierAccountStore(block.Address).ByHeight(block.Height)
+		if err != nil || b == nil || b.Hash != block.Hash || wasThere {
+			return
+		}
+		verifMu.Lock()
+		id := verifPools[ap]
+		verifMu.Unlock()
+		verifEmit(VerifEvent{"ev": "block", "chain": id, "force": force, "block": block, "patch": patch,
+			"frontier": ap.getFrontierAccountStore(block.Address).Identifier().Height})
+	}
+}
+
+func verifMomentumAdded(c *momentumPool, momentum *nom.Momentum) {
+	verifMu.Lock()
+	id := verifChains[c]
+	verifMu.Unlock()
+	store := c.getFrontierStore()
+	ev := VerifEvent{"ev": "momentum", "chain": id, "momentum": momentum, "producer": momentum.Producer().String(),
+		"patch": verifPatchHex(c.chainManager.GetPatch(momentum.Identifier()))}
+	if detailed, err := store.PrefetchMomentum(momentum); err == nil {
+		ev["blocks"] = detailed.AccountBlocks
+	} else {
+		ev["error"] = err.Error()
+	}
+	verifEmit(ev)
+}
+
+func verifMomentumPopped(c *momentumPool, detailed *nom.DetailedMomentum) {
+	verifMu.Lock()
+	id := verifChains[c]
+	verifMu.Unlock()
+	verifEmit(VerifEvent{"ev": "pop", "chain": id, "height": detailed.Momentum.Height, "hash": detailed.Momentum.Hash.String()})
+}
+
+func verifNop() {}
